@@ -199,6 +199,9 @@ Error ConstPool::add(const void* data, size_t size, Out<size_t> offset_out) noex
       }
 
       node = ConstPool::Tree::new_node_t(_arena, data_ptr, smaller_size, offset + (i * smaller_size), true);
+      if (ASMJIT_UNLIKELY(!node)) {
+        return make_error(Error::kOutOfMemory);
+      }
       _tree[tree_index].insert(node);
     }
   }
